@@ -52,8 +52,8 @@ NEUTRAL = [
                 "    def _check_str_len(self, path: PathHolder, value: Any, schema: StrSchema) -> List[ValidationError]:\n        errors: List[ValidationError] = []\n        if schema.props.len is not Nil:\n            if len(value) != schema.props.len:\n                errors.append(LengthValidationError(path, value, schema.props.len))\n        if schema.props.min_len is not Nil:\n            if len(value) < schema.props.min_len:\n                errors.append(MinLengthValidationError(path, value, schema.props.min_len))\n        if schema.props.max_len is not Nil:\n            if len(value) > schema.props.max_len:\n                errors.append(MaxLengthValidationError(path, value, schema.props.max_len))\n        return errors\n\n    def visit_list(self, schema: ListSchema, *,\n                   value: Any = Nil, path: Nilable[PathHolder] = Nil,\n                   **kwargs: Any) -> ValidationResult:\n        result = self._validation_result_factory()")]},
     {"name": "N10 generator: str length drawn by a helper method",
      "edits": [(G, "        if schema.props.len is not Nil:\n            length = schema.props.len\n        else:\n            min_length = schema.props.min_len if (schema.props.min_len is not Nil) else STR_LEN_MIN",
-                "        length = self._str_length(schema)\n\n        if schema.props.alphabet is not Nil:\n            alphabet = schema.props.alphabet\n        else:\n            alphabet = STR_ALPHABET\n\n        if schema.props.substr is not Nil:\n            substr = schema.props.substr\n            generated = self._random.random_str(length - len(substr), alphabet)\n            offset = self._random.random_int(0, len(generated))\n            return generated[0:offset] + substr + generated[offset:]\n\n        return self._random.random_str(length, alphabet)\n\n    def _str_length(self, schema: StrSchema) -> int:\n        if schema.props.len is not Nil:\n            return schema.props.len\n        else:\n            min_length = schema.props.min_len if (schema.props.min_len is not Nil) else STR_LEN_MIN"),
-               (G, "            length = self._random.random_int(min_length, max_length)\n\n        if schema.props.alphabet is not Nil:\n            alphabet = schema.props.alphabet\n        else:\n            alphabet = STR_ALPHABET\n\n        if schema.props.substr is not Nil:\n            substr = schema.props.substr\n            generated = self._random.random_str(length - len(substr), alphabet)\n            offset = self._random.random_int(0, len(generated))\n            return generated[0:offset] + substr + generated[offset:]\n\n        return self._random.random_str(length, alphabet)\n\n    def visit_list",
+                "        length = self._str_length(schema)\n\n        if schema.props.alphabet is not Nil:\n            alphabet = schema.props.alphabet\n        else:\n            alphabet = STR_ALPHABET\n        if len(alphabet) == 0:\n            # nothing can be drawn from an empty alphabet: only the empty string conforms\n            return \"\"\n\n        if schema.props.substr is not Nil:\n            substr = schema.props.substr\n            generated = self._random.random_str(length - len(substr), alphabet)\n            offset = self._random.random_int(0, len(generated))\n            return generated[0:offset] + substr + generated[offset:]\n\n        return self._random.random_str(length, alphabet)\n\n    def _str_length(self, schema: StrSchema) -> int:\n        if schema.props.len is not Nil:\n            return schema.props.len\n        else:\n            min_length = schema.props.min_len if (schema.props.min_len is not Nil) else STR_LEN_MIN"),
+               (G, "            length = self._random.random_int(min_length, max_length)\n\n        if schema.props.alphabet is not Nil:\n            alphabet = schema.props.alphabet\n        else:\n            alphabet = STR_ALPHABET\n        if len(alphabet) == 0:\n            # nothing can be drawn from an empty alphabet: only the empty string conforms\n            return \"\"\n\n        if schema.props.substr is not Nil:\n            substr = schema.props.substr\n            generated = self._random.random_str(length - len(substr), alphabet)\n            offset = self._random.random_int(0, len(generated))\n            return generated[0:offset] + substr + generated[offset:]\n\n        return self._random.random_str(length, alphabet)\n\n    def visit_list",
                 "            return self._random.random_int(min_length, max_length)\n\n    def visit_list")]},
     {"name": "N11 dict declaration: key normalisation in a helper",
      "edits": [(D, "            if isinstance(key, optional):\n                real_keys[key.key] = (val, True)\n            else:\n                real_keys[key] = (val, False)",
